@@ -222,10 +222,14 @@ fn eval_inner(op: &Op, pre: Option<(&Shared, &[(String, Ctx)])>, chans: Option<&
                     // distinct caller-made calendars (most of them dropped at once)
                     _ => ("Mo-Su 09:00-18:00; PH off".to_string(), Ctx::Custom(1000 + seed * 1000 + i)),
                 };
+                // (tens of thousands of values: only made, one in sixteen kept; otherwise evaluated, one in two kept)
+                let mega = *n > 5_000;
                 match build(&e, &c) {
                     Ok(oh) => {
-                        f.str(&oh.state(*t));
-                        if i % 2 == 0 {
+                        if !mega {
+                            f.str(&oh.state(*t));
+                        }
+                        if i % if mega { 16 } else { 2 } == 0 {
                             kept.push((e, oh));
                         }
                     }
@@ -243,7 +247,9 @@ fn eval_inner(op: &Op, pre: Option<(&Shared, &[(String, Ctx)])>, chans: Option<&
                     return format!("CHURN-MIXUP {e:?} prints as {shown:?}");
                 }
                 f.str(&shown);
-                f.str(&oh.next_change(*t));
+                if *n <= 5_000 {
+                    f.str(&oh.next_change(*t));
+                }
                 expect.push((e.clone(), shown));
             }
             // all of them are released in one burst (no lock of the library is needed for that, so the burst
